@@ -18,7 +18,7 @@
    pairs reach the voting, id issuing, history truncation, auto-waste - is decided here. *)
 From Coq Require Import List NArith ZArith QArith Bool Lia.
 From Similari Require Import Base.Num Model.Constraints.
-From SimilariGen Require Import Consts ScalarGate.
+From SimilariGen Require Import Consts ScalarGate ScalarTracker.
 Import ListNotations.
 Open Scope N_scope.
 
@@ -151,11 +151,16 @@ Definition auto_waste (c : cfg) (st : tstate) : tstate :=
   let ex := filter (expired c (epochs st)) (live st) in
   set_wasted (set_live st (filter (fun t => negb (expired c (epochs st) t)) (live st))) (ins_all ex (wasted st)).
 
-(* the prologue of predict *)
-Definition prologue (c : cfg) (st : tstate) : tstate :=
-  if aw_cnt st =? 0
-  then let st1 := auto_waste c st in set_aw st1 (aw_per st1) (aw_per st1)
-  else set_aw st (aw_cnt st - 1) (aw_per st).
+(* the prologue of predict.  The counter test and update are the ones TRANSLATED from the Rust source on every run
+   (gen/ScalarTracker.v: auto_waste_prologue_sort for Sort::predict_with_scene, auto_waste_prologue_batch_sort for
+   BatchSort::predict): (counter, periodicity) |-> (collect now?, new counter).  Proofs use them only through
+   TrackerScalarProofs.auto_waste_prologue_spec (TrackerBase.prologue_eq). *)
+Definition prologue_with (f : N -> N -> bool * N) (c : cfg) (st : tstate) : tstate :=
+  let '(collect, cnt') := f (aw_cnt st) (aw_per st) in
+  if collect then set_aw (auto_waste c st) cnt' (aw_per st) else set_aw st cnt' (aw_per st).
+
+Definition prologue (c : cfg) (st : tstate) : tstate := prologue_with (auto_waste_prologue_sort Qops) c st.
+Definition prologue_batch (c : cfg) (st : tstate) : tstate := prologue_with (auto_waste_prologue_batch_sort Qops) c st.
 
 (* EpochDb::next_epoch *)
 Definition next_epoch (st : tstate) (scene : N) : N * tstate :=
@@ -327,11 +332,11 @@ Section Tracker.
   Definition trun (ops : list top) : list tout * tstate := trun_from init ops.
 
   (* BatchSort::predict with a request over several (distinct) scenes, results collected before the next
-     call: ONE prologue, then the per-scene body for every scene.  Used by the correspondence only. *)
+     call: ONE prologue (BatchSort's own, translated), then the per-scene body for every scene.  Used by the correspondence only. *)
   Definition batch_step (st : tstate) (b : list (N * list detection)) : list (N * list rec) * tstate :=
     fold_left (fun acc sd => let '(recs, st') := predict_core (snd acc) (fst sd) (snd sd) in
                              (fst acc ++ [(fst sd, recs)], st'))
-              b ([], prologue c st).
+              b ([], prologue_batch c st).
 
 End Tracker.
 
@@ -482,7 +487,7 @@ Definition xstep (G : N -> list N -> option Z) (D2R : N -> list N -> Q) (solve :
                                     let '(t, s) := acc in
                                     let t' := ties_of G D2R c s (fst sd) (snd sd) in
                                     let '(_, s') := predict_core G D2R solve c s (fst sd) (snd sd) in
-                                    (t * t', s')) b (1, prologue c st)) in
+                                    (t * t', s')) b (1, prologue_batch c st)) in
       ((XBatchOut (map (fun sr => (fst sr, map rec_tuple (snd sr))) res), ties), st')
   end.
 
